@@ -61,6 +61,14 @@ Definition wire_item_legacy (lc : listen_cfg) : item_args :=
 Definition wire_item_fixed (lc : listen_cfg) : item_args :=
   {| ia_received_support := negb (lc_no_received lc); ia_def_route := lc_def_route lc |}.
 
+(* which repairs the modelled tree contains (all true = the current tree; a false flag gives
+   the pre-fix behaviour, kept for the *_legacy_refuted witnesses) *)
+Record fixes := { fx_wiring : bool;        (* startProxy argument order (received-support) *)
+                  fx_udp_via_listener : bool; (* findClientTransport: listener socket only for UDP next hops *)
+                  fx_indialog_invite : bool;  (* findBackendByDialog also for INVITE / SUBSCRIBE *)
+                  fx_bracket_host : bool }.   (* handleRawMessage: host[1:len-1] guarded *)
+Definition all_fixed : fixes := {| fx_wiring := true; fx_udp_via_listener := true; fx_indialog_invite := true; fx_bracket_host := true |}.
+
 (* ------------------------------------------------------------------ transports *)
 Inductive tkind := KUdp | KTcpListen | KTcpConn.
 (* a ServerTransport as the routing code sees it: kind, GetAddress(), GetPort() *)
@@ -309,7 +317,7 @@ Definition is_my_message (n : my_name) (from : stransport) (m : message) : bool 
   end.
 
 (* ------------------------------------------------------------------ the per-message pipeline *)
-Record env := { e_cfg : cfg; e_li : nat; e_lc : listen_cfg; e_now : Z (* ns *); e_branch : bytes;
+Record env := { e_fx : fixes; e_cfg : cfg; e_li : nat; e_lc : listen_cfg; e_now : Z (* ns *); e_branch : bytes;
                 e_item_rs : bool (* receivedSupport the listeners were created with *) }.
 Definition now_s (e : env) : Z := Z.div (e_now e) second.
 Definition route_table_of (c : cfg) : route_table :=
@@ -357,6 +365,7 @@ Definition send_message (e : env) (host : bytes) (port : Z) (transport : bytes) 
       let p2 :=
         match alookup key (ps_table p1) with
         | Some {| fo_pri := None |} =>
+            if (fx_udp_via_listener (e_fx e) && negb (equal_fold transport (s2b "udp")))%bool then p1 else
             match alookup ip (x_learned x) with
             | Some {| t_kind := KUdp |} => if resolvable ip port then set_primary key (PUdpVia ip port) p1 else p1
             | _ => p1
@@ -410,7 +419,7 @@ Definition backend_send (b : bref) (bytes_ : bytes) (p : pstate) : pstate * list
 (* findBackendByDialog: (backend, err) *)
 Definition find_backend_by_dialog (e : env) (p : pstate) : M (pstate * option bref) :=
   mlet meth := s_get_method in
-  if (beq meth (s2b "INVITE") || beq meth (s2b "SUBSCRIBE"))%bool then mret (p, None)
+  if (negb (fx_indialog_invite (e_fx e)) && (beq meth (s2b "INVITE") || beq meth (s2b "SUBSCRIBE")))%bool then mret (p, None)
   else
     mlet od := mtry s_get_dialog in
     match od with
@@ -593,7 +602,10 @@ Definition process_message (e : env) (peer : bytes) (peer_port : Z) (from : stra
               let host0 := match oh with Some (h, _, _) => h | None => [] end in
               let port := match oh with Some (_, p, _) => p | None => 0 end in
               (* host[1:len(host)-1] *)
-              match (if has_prefix (s2b "[") host0 then slice_chk host0 1 (List.length host0 - 1) else Ok host0) with
+              match (if has_prefix (s2b "[") host0
+                     then (if (fx_bracket_host (e_fx e) && negb (has_suffix (s2b "]") host0 && Nat.leb 2 (List.length host0)))%bool
+                           then Ok host0 else slice_chk host0 1 (List.length host0 - 1))
+                     else Ok host0) with
               | Panic => (m', Panic)
               | Err => (m', Err)
               | Ok host =>
@@ -648,8 +660,8 @@ Fixpoint set_nth_p (l : list pstate) (i : nat) (p : pstate) : list pstate :=
   | x :: r, S j => x :: set_nth_p r j p
   end.
 
-Definition mk_env (c : cfg) (item_rs : listen_cfg -> bool) (li : nat) (lc : listen_cfg) (now : Z) (branch : bytes) : env :=
-  {| e_cfg := c; e_li := li; e_lc := lc; e_now := now; e_branch := branch; e_item_rs := item_rs lc |}.
+Definition mk_env (fx : fixes) (c : cfg) (item_rs : listen_cfg -> bool) (li : nat) (lc : listen_cfg) (now : Z) (branch : bytes) : env :=
+  {| e_fx := fx; e_cfg := c; e_li := li; e_lc := lc; e_now := now; e_branch := branch; e_item_rs := item_rs lc |}.
 
 Definition run_ctx (st : state) (li : nat) (f : pstate -> ctx -> res ctx) : res (state * list output) :=
   match nth_p (st_proxies st) li with
@@ -689,14 +701,14 @@ Fixpoint tcp_messages (fuel : nat) (e : env) (c : conn) (s : bytes) (x : ctx) : 
 Definition item_rs_of (fixed : bool) (lc : listen_cfg) : bool :=
   ia_received_support (if fixed then wire_item_fixed lc else wire_item_legacy lc).
 
-Definition proxy_step (fixed_wiring : bool) (c : cfg) (now : Z) (branch : bytes)
+Definition proxy_step (fx : fixes) (c : cfg) (now : Z) (branch : bytes)
            (st : state) (ev : event) : res (state * list output) :=
   match ev with
   | EvUdp li src sport data =>
       match nth_opt (c_listens c) li with
       | None => Ok (st, [])
       | Some lc =>
-          let e := mk_env c (item_rs_of fixed_wiring) li lc now branch in
+          let e := mk_env fx c (item_rs_of (fx_wiring fx)) li lc now branch in
           match parse_message data with
           | Ok (m, _) =>
               run_ctx st li (fun _ x =>
@@ -708,7 +720,7 @@ Definition proxy_step (fixed_wiring : bool) (c : cfg) (now : Z) (branch : bytes)
   | EvTcpAccept li src sport =>
       match nth_opt (c_listens c) li, nth_p (st_proxies st) li with
       | Some lc, Some p =>
-          let e := mk_env c (item_rs_of fixed_wiring) li lc now branch in
+          let e := mk_env fx c (item_rs_of (fx_wiring fx)) li lc now branch in
           let cid := w_next_conn (st_world st) in
           let cn := {| cn_id := cid; cn_li := li; cn_open := true; cn_peer := src; cn_peer_port := sport;
                        cn_from := {| t_kind := KTcpListen; t_addr := lc_addr lc; t_port := lc_tcp lc |};
@@ -727,7 +739,7 @@ Definition proxy_step (fixed_wiring : bool) (c : cfg) (now : Z) (branch : bytes)
             let li := cn_li cn in
             match nth_opt (c_listens c) li with
             | Some lc =>
-                let e := mk_env c (item_rs_of fixed_wiring) li lc now branch in
+                let e := mk_env fx c (item_rs_of (fx_wiring fx)) li lc now branch in
                 run_ctx st li (fun _ x => tcp_messages (S (List.length data)) e cn data x)
             | None => Ok (st, [])
             end
